@@ -391,14 +391,13 @@ Proof.
         rewrite Elf.
         eapply rsim_bind; [eapply sim_evals; eassumption|].
         intros [vs h1] [vs' s1] (E1 & HR1 & HF1). cbn [fst snd] in *. subst vs'. cbv beta iota.
-        rewrite Eid, Ell, Ep, Eb.
+        rewrite Eid, Ell, Eb. rewrite (f_equal (@length _) Ep).
         destruct (Nat.eqb (length vs) (length (c_params cl))) eqn:En; cbn [negb]; [|exact I].
         apply Nat.eqb_eq in En.
         destruct (Hcall s1 h1 vs HR1 HF1 En) as (kG & Hchk & Hbok & HRG & Hret).
-        unfold new_frame. cbv beta iota zeta. rewrite <- Ep.
+        unfold new_frame. cbv beta iota zeta.
         eapply rsim_bind; [eapply IHb; eassumption|].
         intros [fl h3] [fl' s3] (E3 & HR3 & HF3). cbn [fst snd] in *. subst fl'. cbv beta iota.
-        rewrite Ep in HF3.
         assert (HFr : FC s h (pop_scope s3) h3) by (eapply FC_call; eauto).
         specialize (Hret _ _ HR3 HF3).
         destruct fl; try exact I;
@@ -425,7 +424,8 @@ Proof.
           destruct (bytes_eqb f n_find).
           { destruct args as [|a0 r]; [exact I|]. cbn [forallb] in *. split_andb.
             ev_step IHe. destruct v; try qe_done.
-            rewrite find_correct. destruct (first_occ s0 s2); cbn [res_of]; qe_done. }
+            rewrite find_correct.
+            match goal with |- context [first_occ ?a ?b] => destruct (first_occ a b) end; cbn [res_of]; qe_done. }
           destruct (bytes_eqb f n_replace).
           { destruct args as [|a0 [|a1 r]]; try exact I. cbn [forallb] in *. split_andb.
             ev_step IHe. ev_step IHe. destruct v; try qe_done; destruct v0; try qe_done.
